@@ -378,7 +378,31 @@ def c18():
                 ASSUME_TRACE)
 
 
-CHECKS = {"C15": c15, "C16": c16, "C18": c18, "C06": c06, "C07": c07, "C09": c09, "C14": c14, "C01": c01, "C02": c02, "C03": c03, "C04": c04, "C05": c05, "C12": c12, "C13": c13}
+def fam_foreign(prop, n_per_ft, salt=0, n_ops=12):
+    rng = rng_for(prop, 400 + salt)
+    progs = []
+    for ft in (12, 16, 32):
+        for i in range(n_per_ft):
+            vol, cs, oem = gen.foreign_volume(rng, ft, quick=(core.tier() == "quick"))
+            progs.append(gen.foreign_program(rng, "foreign-%d-%d" % (ft, i), vol, cs, oem, n_ops=n_ops))
+    return progs
+
+
+def c08():
+    t0 = time.time()
+    wd = workdir("C08")
+    res = [("foreign", core.campaign("foreign", fam_foreign("C08", scale(30, 400)), wd, n_shards=14))]
+    core.finish("C08", LEVEL, res, None, t0,
+                "volumes from the independent builder (all widths, sector 512-4096, 1-4 sectors per cluster, 1-3 FATs, mirroring on/off x active copy, "
+                "16/32-bit sector counts, reserved areas, FSInfo/backup positions, root cluster != 2, descending/interleaved/random chains, every legal EOC "
+                "value, FAT32 high nibbles in used and free entries, BAD marks, deleted slots and orphaned long-name runs, short-name-only entries with NT "
+                "flags, 0x05 lead byte, OEM bytes, labels anywhere, all attribute bits, full clusters without END marker, slack sectors): TLC compares the "
+                "library's listing and Abs(raw) with the builder's ground truth, then judges library mutations with the structural invariants and the "
+                "frame clauses (FAT entries, slot digests, BAD marks, inactive copies, high nibbles)",
+                ASSUME_TRACE + ["the image builder produces specification-valid volumes (checked: TLC evaluates the structural invariants on every built image, C08.valid_input)"])
+
+
+CHECKS = {"C08": c08, "C15": c15, "C16": c16, "C18": c18, "C06": c06, "C07": c07, "C09": c09, "C14": c14, "C01": c01, "C02": c02, "C03": c03, "C04": c04, "C05": c05, "C12": c12, "C13": c13}
 
 
 def run(prop):
